@@ -127,8 +127,16 @@ def body_vcard_framing(pre, has_begin, crlf, mid, has_end, suf, parser_ok):
     core = content[lo:hi]
     framed = (core[:len(BEGIN_N)] == BEGIN_N or core[:len(BEGIN_RN)] == BEGIN_RN) and core[-len(END):] == END \
         and len(core) >= len(END)
-    want = framed and parser_ok
-    return (got == want, "accepted" if want else ("unframed" if not framed else "parser-rejects"))
+    # ... contains no control character (RFC 6350 3.3) and is UTF-8
+    ctrl = any((b < 0x20 and b not in (9, 10, 13)) or b == 0x7f for b in core)
+    try:
+        core.decode("utf-8")
+        utf8 = True
+    except UnicodeDecodeError:
+        utf8 = False
+    want = framed and parser_ok and not ctrl and utf8
+    cls = "accepted" if want else ("unframed" if not framed else "control" if ctrl else "not-utf8" if not utf8 else "parser-rejects")
+    return (got == want, cls)
 
 
 def h_vcard_framing(pre: bytes, has_begin: bool, crlf: bool, mid: bytes, has_end: bool, suf: bytes,
@@ -167,7 +175,9 @@ def body_ical_validate(parse_fails, has_errors, t_top, t_sub, t_subsub, has_sub,
     finally:
         xical.Calendar = saved
     texts = [t_top] + ([t_sub] if has_sub else []) + ([t_subsub] if has_sub and has_subsub else [])
-    bad = any(("\x0c" in t or "\x01" in t) for t in texts)
+    # RFC 5545 3.3.11: CONTROL = %x00-08 / %x0A-1F / %x7F is not allowed in TEXT (a parsed value holds LF only as the
+    # unescaped form of "\\n", CR never); HTAB is
+    bad = any(any((ord(ch) < 0x20 and ch not in "\t\n\r") or ch == "\x7f" for ch in t) for t in texts)
     want = not parse_fails and not has_errors and not bad
     return (got == want, "valid" if want else ("parse" if parse_fails else "errors" if has_errors else "control-char"))
 
@@ -184,6 +194,10 @@ def h_ical_validate(parse_fails: bool, has_errors: bool, t_top: str, t_sub: str,
 VC = b"BEGIN:VCARD\r\nVERSION:3.0\r\nFN:Jane Doe\r\nN:Doe;Jane;;;\r\n%sEND:VCARD\r\n"
 IC = (b"BEGIN:VCALENDAR\r\nVERSION:2.0\r\nPRODID:-//x//y//EN\r\nBEGIN:VEVENT\r\nUID:u1\r\nDTSTAMP:20200101T000000Z\r\n"
       b"DTSTART:20200101T000000Z\r\n%sEND:VEVENT\r\nEND:VCALENDAR\r\n")
+TZC = (b"BEGIN:VCALENDAR\r\nVERSION:2.0\r\nPRODID:-//x//y//EN\r\nBEGIN:VTIMEZONE\r\nTZID:Europe/X\r\nBEGIN:STANDARD\r\n"
+       b"DTSTART:19701025T030000\r\nTZOFFSETFROM:+0200\r\nTZOFFSETTO:+0100\r\nEND:STANDARD\r\nEND:VTIMEZONE\r\nBEGIN:VEVENT\r\n"
+       b"UID:u1\r\nDTSTAMP:20200101T000000Z\r\nDTSTART;TZID=Europe/X:20200101T100000\r\nDTEND;TZID=Europe/X:20200101T110000\r\n"
+       b"END:VEVENT\r\nEND:VCALENDAR\r\n")
 CORPUS = [
     # (content type, body, well-formed?)
     ("text/vcard", VC % b"", True),
@@ -203,6 +217,20 @@ CORPUS = [
     ("text/calendar", (IC % b"")[:60], False),
     ("text/calendar", IC % b"SUMMARY:bad\x0cchar\r\n", False),
     ("text/calendar", IC % b"BEGIN:VALARM\r\nACTION:DISPLAY\r\nDESCRIPTION:bad\x01\r\nTRIGGER:-PT5M\r\nEND:VALARM\r\n", False),
+    # (added after the audit: the valid features and invalid classes the statement lists that had no member)
+    ("text/vcard", (VC % b"").replace(b"\r\n", b"\n"), True),                       # LF-only line endings
+    ("text/vcard", VC % b"NOTE:aaa\r\n bbb\r\n", True),                              # folded line
+    ("text/vcard", VC % "NOTE:\U0001f382 \u4e2d\r\n".encode("utf-8"), True),           # astral / CJK text
+    ("text/vcard", VC % b"item1.EMAIL;TYPE=INTERNET:a@b\r\nitem1.X-ABLabel:w\r\n", True),  # grouped properties
+    ("text/vcard", VC % b"NOTE:a\x02b\r\n", False),                                   # control character in a value
+    ("text/vcard", VC % b"FN:J\xf6rg\r\n", False),                                    # not UTF-8 (Latin-1)
+    ("text/calendar", (IC % b"SUMMARY:ok\r\n").replace(b"\r\n", b"\n"), True),     # LF-only line endings
+    ("text/calendar", IC % b"SUMMARY:aaaa\r\n bbbb\r\n", True),                      # folded line
+    ("text/calendar", IC % ("SUMMARY:" + "x" * 100 + "\r\n").encode(), True),          # a line the server will fold
+    ("text/calendar", TZC, True),                                                     # VTIMEZONE + TZID parameters
+    ("text/calendar", IC % b"RRULE:FREQ=DAILY;COUNT=3\r\nEXDATE:20200102T000000Z\r\nRDATE:20200105T000000Z\r\n", True),
+    ("text/calendar", IC % b"SUMMARY:a\x02b\r\n", False),                             # control character other than FF / SOH
+    ("text/calendar", IC % b"LOCATION:a\x7fb\r\n", False),                            # DEL
 ]
 
 
@@ -214,9 +242,9 @@ def body_corpus(i, backend_vdir):
     import tempfile
     import shutil
     try:
-        from crosshair import realize
         from crosshair.tracers import NoTracing
-        i, backend_vdir = realize(i), realize(backend_vdir)
+        from xv.core import pick
+        i, backend_vdir = pick(i, len(CORPUS)), (True if backend_vdir else False)
     except ImportError:
         import contextlib
         NoTracing = contextlib.nullcontext
@@ -246,6 +274,14 @@ def body_corpus(i, backend_vdir):
             if not accepted or listing != [name]:
                 return (False, "valid-refused")
             served = b"".join(store.get_file(name, ctype).content)
+            # "can always be ... served": as calendar-data / address-data the bytes are decoded as UTF-8 and carried
+            # in XML, so they must decode and contain no character XML cannot represent
+            try:
+                txt = served.decode("utf-8")
+            except UnicodeDecodeError:
+                return (False, "valid-unservable")
+            if any((ord(ch) < 0x20 and ch not in "\t\n\r") for ch in txt):
+                return (False, "valid-unservable")
             (n2, etag2) = store.import_one(name, ctype, [served], message="m2")
             ok = etag2 == etag and b"".join(store.get_file(name, ctype).content) == served
             if not backend_vdir:
@@ -306,14 +342,17 @@ HARNESSES = [
             encodes=["xandikos.webdav.PutMethod.handle", "xandikos.web.ObjectResource.set_body",
                      "xandikos.web.StoreBasedCollection.create_member"]),
     Harness("corpus", h_corpus, body_corpus, classes=["valid", "invalid"], budget={"quick": 60, "thorough": 120},
-            describe="17 real bodies (valid ones + one member of each invalid class) through the REAL icalendar / vobject "
+            describe="%d real bodies (valid ones incl. LF-only endings, folded and long lines, grouped vCard properties, astral "
+                     "text, VTIMEZONE / TZID, RRULE / EXDATE / RDATE; one member of each invalid class incl. control "
+                     "characters and non-UTF-8 bytes) through the REAL icalendar / vobject " % len(CORPUS) +
                      "parsers on a real MemoryRepo-backed BareGitStore and a real VdirStore: invalid => refused, nothing "
                      "stored; valid => stored and a fixed point of upload.  Corpus-based (solver chooses the index)",
             encodes=["xandikos.icalendar.ICalendarFile.validate", "xandikos.icalendar.ICalendarFile.normalized",
                      "xandikos.vcard.VCardFile.validate", "xandikos.vcard.VCardFile.addressbook",
                      "xandikos.store.git.GitStore.import_one", "xandikos.store.vdir.VdirStore.import_one"]),
-    Harness("vcard_framing", h_vcard_framing, body_vcard_framing, classes=["accepted", "unframed", "parser-rejects"],
-            bounds=_B, budget={"quick": 60, "thorough": 300},
+    Harness("vcard_framing", h_vcard_framing, body_vcard_framing,
+            classes=["accepted", "unframed", "parser-rejects", "control", "not-utf8"],
+            bounds=_B, budget={"quick": 60, "thorough": 300}, twin_budget={"quick": 60, "thorough": 120},
             describe="VCardFile.validate: BEGIN:VCARD / END:VCARD framing around symbolic bytes; vobject stubbed",
             encodes=["xandikos.vcard.VCardFile.validate"]),
     Harness("ical_validate", h_ical_validate, body_ical_validate, classes=["valid", "parse", "errors", "control-char"],
